@@ -206,8 +206,255 @@ def correspondence(rng, tier):
     return [cases_1d(rng, tier), cases_nd(rng, tier), cases_op(rng, tier)]
 
 
+NP_MODE = {'constant': 'constant', 'periodic': 'wrap', 'symmetric': 'reflect', 'order0': 'edge'}
+
+_REF_SRC = """
+import numpy as np
+def ref_resize(arr, newshp, offs, mode, c=0):
+    # independent oracle: crop the shrinking axes by slicing, pad the growing axes with
+    # numpy.pad (constant / wrap / reflect / edge) or, for order1, by linear extrapolation
+    arr = np.asarray(arr)
+    sl = tuple(slice(o, o + m) if m < n else slice(None) for n, m, o in zip(arr.shape, newshp, offs))
+    a = arr[sl]
+    pads = [(o, m - n - o) if m > n else (0, 0) for n, m, o in zip(arr.shape, newshp, offs)]
+    if mode == 'order1':
+        for ax, (pl, pr) in enumerate(pads):
+            if pl == 0 and pr == 0:
+                continue
+            a = np.moveaxis(a, ax, 0)
+            lo = [a[0] + k * (a[1] - a[0]) for k in range(-pl, 0)]
+            hi = [a[-1] + k * (a[-1] - a[-2]) for k in range(1, pr + 1)]
+            a = np.concatenate([np.array(lo).reshape((pl,) + a.shape[1:]), a,
+                                np.array(hi).reshape((pr,) + a.shape[1:])], axis=0)
+            a = np.moveaxis(a, 0, ax)
+        return a
+    kw = {'constant_values': c} if mode == 'constant' else {}
+    return np.pad(a, pads, mode={'constant': 'constant', 'periodic': 'wrap', 'symmetric': 'reflect',
+                                 'order0': 'edge'}[mode], **kw)
+def matrix(f, ishape, oshape):
+    n = int(np.prod(ishape)); cols = []
+    for j in range(n):
+        e = np.zeros(n); e[j] = 1.0
+        cols.append(np.asarray(f(e.reshape(ishape))).ravel())
+    return np.array(cols).T.reshape(int(np.prod(oshape)), n)
+"""
+_REF = {}
+exec(_REF_SRC, _REF)
+
+
+def _legal_config(rng, mode, ndim, hi, allow_shrink=True):
+    ish, osh, offs = [], [], []
+    for _ in range(ndim):
+        n = rng.randint(2, hi)
+        lim = {'symmetric': n - 1, 'periodic': n}.get(mode, hi)
+        kind = rng.choice(['grow', 'grow', 'shrink', 'same']) if allow_shrink else 'grow'
+        if kind == 'grow':
+            pl, pr = rng.randint(0, min(lim, hi)), rng.randint(0, min(lim, hi))
+            ish.append(n); osh.append(n + pl + pr); offs.append(pl)
+        elif kind == 'shrink':
+            m = rng.randint(1, n)
+            ish.append(n); osh.append(m); offs.append(rng.randint(0, n - m))
+        else:
+            ish.append(n); osh.append(n); offs.append(0)
+    return ish, osh, offs
+
+
+def _run(rp):
+    env = {}
+    try:
+        exec(rp, env)
+        return bool(env.get('ok')), env
+    except Exception as e:   # a crash of the property evaluation counts as failing
+        return False, {'error': repr(e)}
+
+
 def probes(rng, tier):
-    return []
+    import odl
+    from odl.util.numerics import resize_array
+    out = []
+    big = tier != 'quick'
+    nper = 6 if not big else 30
+    hi = 4 if not big else 7
+    pre = "import numpy as np, odl\nfrom odl.util.numerics import resize_array\n" + _REF_SRC
+
+    # 1. the named rule / numpy.pad equivalence, N-d, mixed grow/shrink per axis, several dtypes
+    for mode in MODES:
+        for k in range(nper):
+            ndim = rng.choice([1, 2, 2, 3])
+            ish, osh, offs = _legal_config(rng, mode, ndim, hi if ndim < 3 else 3)
+            dt = rng.choice(['float', 'int', 'complex', 'float32'])
+            vals = [rng.randint(-9, 9) for _ in range(int(np.prod(ish)))]
+            c = rng.choice([0, 1, -2]) if mode == 'constant' else 0
+            rp = pre + ("arr=np.array(%r,dtype=%r).reshape(%r)\n" % (vals, dt, ish))
+            if dt == 'complex':
+                rp += "arr=arr*(1+2j)\n"
+            rp += ("observed=resize_array(arr,%r,offset=%r,pad_mode=%r,pad_const=%r)\n"
+                   "expected=ref_resize(arr,%r,%r,%r,%r)\n"
+                   "ok=bool(observed.shape==expected.shape and observed.dtype==arr.dtype and np.array_equal(observed,expected))\n"
+                   % (tuple(osh), offs, mode, c, tuple(osh), offs, mode, c))
+            ok, _ = _run(rp)
+            what = ('resize_array %s %s->%s offset %s (%s) vs %s' %
+                    (mode, ish, osh, offs, dt, 'numpy.pad(%s)' % NP_MODE[mode] if mode in NP_MODE else 'linear extrapolation'))
+            out.append(C.Probe(ok, 'rule-%s-%s' % (mode, 'complex' if dt == 'complex' else 'real'), what, rp))
+
+    # 2. forward and adjoint are transposes (full matrices), N-d incl. mixed axes
+    for mode in MODES:
+        for k in range(nper):
+            ndim = rng.choice([1, 2, 2])
+            ish, osh, offs = _legal_config(rng, mode, ndim, min(hi, 4))
+            rp = pre + ("M=matrix(lambda a: resize_array(a,%r,offset=%r,pad_mode=%r),%r,%r)\n"
+                        "A=matrix(lambda a: resize_array(a,%r,offset=%r,pad_mode=%r,direction='adjoint'),%r,%r)\n"
+                        "observed=A.tolist(); expected=M.T.tolist(); ok=bool(np.array_equal(A,M.T))\n"
+                        % (tuple(osh), offs, mode, ish, osh, tuple(ish), offs, mode, osh, ish))
+            ok, _ = _run(rp)
+            out.append(C.Probe(ok, 'transpose-%s' % mode,
+                               'adjoint direction is the transpose of the forward matrix, %s %s->%s offset %s'
+                               % (mode, ish, osh, offs), rp))
+
+    # 3. crop after extend = identity (array level and operator level)
+    for mode in MODES:
+        for k in range(nper):
+            ndim = rng.choice([1, 2])
+            ish, osh, offs = _legal_config(rng, mode, ndim, hi, allow_shrink=False)
+            vals = [rng.randint(-9, 9) for _ in range(int(np.prod(ish)))]
+            rp = pre + ("x=np.array(%r,dtype=float).reshape(%r)\n"
+                        "big=resize_array(x,%r,offset=%r,pad_mode=%r,pad_const=3)\n"
+                        "observed=resize_array(big,%r,offset=%r,pad_mode=%r); expected=x\n"
+                        "ok=bool(np.array_equal(observed,x))\n"
+                        % (vals, ish, tuple(osh), offs, mode, tuple(ish), offs, rng.choice(MODES)))
+            ok, _ = _run(rp)
+            out.append(C.Probe(ok, 'crop-extend-%s' % mode, 'crop(extend(x)) == x, %s %s->%s offset %s'
+                               % (mode, ish, osh, offs), rp))
+            rp = pre + ("X=odl.uniform_discr(%r,%r,%r)\nop=odl.ResizingOperator(X,ran_shp=%r,offset=%r,pad_mode=%r)\n"
+                        "x=X.element(np.array(%r,dtype=float).reshape(%r))\n"
+                        "observed=np.asarray(op.inverse(op(x))); expected=np.asarray(x)\n"
+                        "ok=bool(np.array_equal(observed,expected))\n"
+                        % ([0.0] * ndim, [float(n) for n in ish], ish, tuple(osh), offs, mode, vals, ish))
+            ok, _ = _run(rp)
+            out.append(C.Probe(ok, 'op-inverse-%s' % mode, 'op.inverse(op(x)) == x for an extending operator (%s)' % mode, rp))
+
+    # 4. illegal paddings and out-of-range offsets must be rejected
+    for mode in ['symmetric', 'periodic', 'order0', 'order1']:
+        for k in range(nper):
+            n = rng.randint(0, hi)
+            if mode == 'symmetric':
+                n = max(n, 1); pl = rng.choice([n, n + 1, 0]); pr = n if pl == 0 else rng.randint(0, n)
+            elif mode == 'periodic':
+                pl = rng.choice([n + 1, n + 2, 0]); pr = n + 1 if pl == 0 else rng.randint(0, n)
+            elif mode == 'order0':
+                n = 0; pl, pr = rng.randint(0, 2), 1
+            else:
+                n = rng.randint(0, 1); pl, pr = rng.randint(0, 2), 1
+            for direction in DIRS:
+                a, b = ((n,), (n + pl + pr,)) if direction == 'forward' else ((n + pl + pr,), (n,))
+                rp = pre + ("try:\n    observed=resize_array(np.zeros(%r),%r,offset=%r,pad_mode=%r,direction=%r); ok=False\n"
+                            "except ValueError:\n    ok=True\n" % (a, b, pl, mode, direction))
+                ok, _ = _run(rp)
+                out.append(C.Probe(ok, 'illegal-padding-%s' % mode,
+                                   '%s padding %d|%d|%d (%s) must raise ValueError' % (mode, pl, n, pr, direction), rp))
+    for k in range(nper * 3):
+        n, m = rng.randint(1, hi), rng.randint(1, hi + 2)
+        if n == m:
+            continue
+        d = abs(m - n)
+        off = rng.choice([-1, -2, d + 1, d + 2, -d - 1])
+        mode = rng.choice(MODES)
+        vals = [rng.randint(1, 9) for _ in range(n)]
+        rp = pre + ("try:\n    observed=resize_array(np.array(%r,dtype=float),(%d,),offset=%d,pad_mode=%r); ok=False\n"
+                    "except ValueError:\n    ok=True\n" % (vals, m, off, mode))
+        ok, _ = _run(rp)
+        out.append(C.Probe(ok, 'offset-out-of-range-accepted',
+                           'offset %d outside 0..%d for %d->%d must be rejected, not silently wrapped/broadcast' % (off, d, n, m), rp))
+
+    # 5. operator range: enlarged physical domain, unchanged cell sides; restriction = sub-interval
+    for k in range(nper * 2):
+        ndim = rng.choice([1, 2])
+        n = [rng.randint(2, 6) for _ in range(ndim)]
+        cs_ = [rng.choice([0.5, 0.25, 1.0]) for _ in range(ndim)]
+        mn = [rng.choice([0.0, -1.0, 2.0]) for _ in range(ndim)]
+        mx = [a + k_ * c_ for a, k_, c_ in zip(mn, n, cs_)]
+        kind = ['extend', 'restrict-default', 'restrict-explicit'][k % 3]
+        if kind == 'extend':
+            pl = [rng.randint(0, 3) for _ in range(ndim)]; pr = [rng.randint(0, 3) for _ in range(ndim)]
+            m = [a + b + c_ for a, b, c_ in zip(n, pl, pr)]
+            off = pl
+            exp_min = [a - p * c_ for a, p, c_ in zip(mn, pl, cs_)]
+            exp_max = [a + p * c_ for a, p, c_ in zip(mx, pr, cs_)]
+            ctor = "odl.ResizingOperator(X,ran_shp=%r,offset=%r)" % (tuple(m), off)
+            key = 'range-extend'
+        else:
+            m = [rng.randint(1, a) for a in n]
+            if kind == 'restrict-default':
+                off = [(a - b) - (a - b) // 2 if False else -(((b - a)) - ((b - a) // 2)) for a, b in zip(n, m)]
+                ctor = "odl.ResizingOperator(X,ran_shp=%r)" % (tuple(m),)
+                key = 'range-restrict-default'
+            else:
+                off = [rng.randint(0, a - b) for a, b in zip(n, m)]
+                if not any(off):
+                    continue
+                ctor = "odl.ResizingOperator(X,ran_shp=%r,offset=%r)" % (tuple(m), off)
+                key = 'range-restrict-explicit-offset'
+            exp_min = [a + o * c_ for a, o, c_ in zip(mn, off, cs_)]
+            exp_max = [a + (o + b) * c_ for a, o, b, c_ in zip(mn, off, m, cs_)]
+        rp = pre + ("X=odl.uniform_discr(%r,%r,%r)\nop=%s\nR=op.range\n"
+                    "observed=(R.min_pt.tolist(),R.max_pt.tolist(),R.cell_sides.tolist(),list(op.offset))\n"
+                    "expected=(%r,%r,X.cell_sides.tolist(),%r)\n"
+                    "ok=bool(np.allclose(observed[0],expected[0]) and np.allclose(observed[1],expected[1]) "
+                    "and np.allclose(observed[2],expected[2]) and [int(o) for o in observed[3]]==[o if a!=b else 0 for o,a,b in zip(expected[3],%r,%r)])\n"
+                    % (mn, mx, n, ctor, exp_min, exp_max, off, n, m))
+        ok, _ = _run(rp)
+        out.append(C.Probe(ok, key, '%s on [%s,%s] %s: range interval / cell sides / offset' % (ctor, mn, mx, n), rp))
+
+    # 6. adjoint identity in the weighted inner products (operator level)
+    for mode in MODES:
+        for k in range(nper):
+            ndim = rng.choice([1, 2])
+            ish, osh, offs = _legal_config(rng, mode, ndim, min(hi, 5))
+            variant = ['default', 'default', 'nodes-on-bdry', 'weighting-mismatch'][k % 4]
+            vx = [rng.randint(-5, 5) for _ in range(int(np.prod(ish)))]
+            vy = [rng.randint(-5, 5) for _ in range(int(np.prod(osh)))]
+            lo, hi_ = [0.0] * ndim, [n * 0.5 for n in ish]
+            if variant == 'default':
+                sp = "X=odl.uniform_discr(%r,%r,%r)\nop=odl.ResizingOperator(X,ran_shp=%r,offset=%r,pad_mode=%r)\n" % (
+                    lo, hi_, ish, tuple(osh), offs, mode)
+                key = 'adjoint-weighted-%s' % mode
+            elif variant == 'nodes-on-bdry':
+                if min(ish) < 2 or min(osh) < 2:
+                    continue
+                sp = ("X=odl.uniform_discr(%r,%r,%r,nodes_on_bdry=True)\n"
+                      "op=odl.ResizingOperator(X,ran_shp=%r,offset=%r,pad_mode=%r,discr_kwargs={'nodes_on_bdry':True})\n"
+                      % (lo, hi_, ish, tuple(osh), offs, mode))
+                key = 'adjoint-nodes-on-bdry'
+            else:
+                sp = ("X=odl.uniform_discr(%r,%r,%r,weighting=2.0)\nop0=odl.ResizingOperator(X,ran_shp=%r,offset=%r)\n"
+                      "Y=odl.uniform_discr(op0.range.min_pt,op0.range.max_pt,%r,weighting=3.0)\n"
+                      "op=odl.ResizingOperator(X,Y,pad_mode=%r)\n" % (lo, hi_, ish, tuple(osh), offs, osh, mode))
+                key = 'adjoint-weighting-mismatch'
+            rp = pre + sp + ("x=X.element(np.array(%r,dtype=float).reshape(%r)); y=op.range.element(np.array(%r,dtype=float).reshape(%r))\n"
+                             "observed=float(op(x).inner(y)); expected=float(x.inner(op.adjoint(y)))\n"
+                             "ok=bool(abs(observed-expected)<=1e-9*(1+abs(expected)))\n" % (vx, ish, vy, osh))
+            ok, _ = _run(rp)
+            out.append(C.Probe(ok, key, '<op x, y>_range == <x, op.adjoint y>_domain (%s, %s %s->%s)' % (variant, mode, ish, osh), rp))
+
+    # 7. an explicitly given range that does not contain the domain on the left must be rejected
+    for k in range(nper):
+        n = rng.randint(3, 6); sh = rng.randint(1, 2); extra = rng.randint(sh + 1, sh + 3)
+        rp = pre + ("X=odl.uniform_discr(0,%r,%d)\nY=odl.uniform_discr(%r,%r,%d)\n"
+                    "try:\n    op=odl.ResizingOperator(X,Y); observed=op.offset; ok=False\n"
+                    "except ValueError:\n    ok=True\n" % (float(n), n, float(sh), float(n + extra), n + extra - sh))
+        ok, _ = _run(rp)
+        out.append(C.Probe(ok, 'offset-from-spaces-abs-sign',
+                           'range [%d,%d] starts to the right of the domain [0,%d] but is larger: must be rejected' % (sh, n + extra, n), rp))
+
+    # 8. restricted axes are reported, untouched axes are copied
+    for k in range(nper):
+        ish, osh, offs = _legal_config(rng, 'order0', 3, 3)
+        rp = pre + ("X=odl.uniform_discr([0]*3,%r,%r)\nop=odl.ResizingOperator(X,ran_shp=%r,offset=%r,pad_mode='order0')\n"
+                    "observed=op.axes; expected=tuple(i for i in range(3) if %r[i]!=%r[i]); ok=bool(observed==expected)\n"
+                    % ([float(n) for n in ish], ish, tuple(osh), offs, ish, osh))
+        ok, _ = _run(rp)
+        out.append(C.Probe(ok, 'op-axes', 'ResizingOperator.axes lists exactly the resized axes', rp))
+    return out
 
 
 LEVEL_TEXT = 'TODO'
